@@ -19,12 +19,14 @@ TECHNIQUE = "complete product of save_output subsets x environment x estimator x
 RULE = (
     "save_output in all 16 subsets of {results,data,config,conformalization} plus 'argument omitted' x APP_ENV in {local, dev} (real process "
     "environment, one worker pool each) x estimator (3) x gate outcome {passes, fails} x aggregate list {default, with county}; after each passing "
-    "bootstrap run also the national-summary call. Oracle: exact multiset of put_object keys, live-result keys first and present even when the gate "
+    "bootstrap run also the national-summary call; and every two-run history over save_output in {[], [conformalization], [results], [results, conformalization]}^2 x "
+    "estimator pairs x {parameter argument omitted, one dictionary reused} in one process. Oracle: exact multiset of put_object keys, live-result keys first and present even when the gate "
     "fails, exact set of local files, every key matches ^<root>/<election id>/\\S+$ in the configured bucket. non-trivial = the run is expected to "
     "persist something (remote or local)"
 )
 ASSUMPTIONS = [
     "boto3.client is replaced by a recording fake (harness seam); APP_ENV is a real environment variable read at import",
+    "every case (single run or two-run history) executes in a child forked from a pristine worker, so it starts from the initial process state",
     "conformalization data is written whenever requested with the gaussian estimator, in every environment (the statement attaches the local/non-local condition to 'results' only)",
 ]
 OPTIONS = ["results", "data", "config", "conformalization"]
@@ -44,6 +46,15 @@ def cases(tier, seed):
                 for gate in ("passes", "fails"):
                     for agg in ("pc", "pc_cf"):
                         out.append({"env": {"APP_ENV": env}, "save_output": so, "setup": setup, "gate": gate, "agg": agg, "seed": seed})
+    # histories: two estimate runs in one process, on fresh clients, with the parameter argument omitted (library default)
+    # or one dictionary reused by the caller; the second run must persist exactly what *it* was asked to
+    seq_opts = [[], ["conformalization"], ["results"], ["results", "conformalization"]]
+    for env in ("local", "dev"):
+        for first in seq_opts:
+            for second in seq_opts:
+                for pair in (("ga2", "ga2"), ("np2", "ga2"), ("ga2", "np2")):
+                    for params in ("omitted", "shared_dict"):
+                        out.append({"env": {"APP_ENV": env}, "kind": "sequence", "first": first, "second": second, "setups": list(pair), "params": params, "seed": seed})
     return out
 
 
@@ -51,9 +62,117 @@ def describe(case):
     return case
 
 
-def evaluate(case):
+def worker_init():
+    """Warm third-party code only (lazy imports, solver start-up); no elexmodel function is executed in the worker itself,
+    so the children forked from it start from the library's initial state."""
+    import numpy as np
+    import pandas as pd
+    import scipy.optimize  # noqa: F401
+    import scipy.stats
+    from elexsolver.OLSRegressionSolver import OLSRegressionSolver
+    from elexsolver.QuantileRegressionSolver import QuantileRegressionSolver
+
+    x = np.column_stack([np.ones(8), np.arange(8.0)])
+    y = np.arange(8.0) ** 1.5
+    QuantileRegressionSolver().fit(x, y, taus=0.5, weights=np.ones(8))
+    QuantileRegressionSolver().fit(x, y, taus=0.5, weights=np.ones(8), lambda_=0.1)
+    OLSRegressionSolver().fit(x, y.reshape(-1, 1), weights=np.ones((8, 1)))
+    scipy.stats.bootstrap(y.reshape(1, -1), lambda v, axis: np.std(v, ddof=1, axis=-1), n_resamples=50, method="basic", random_state=1)
+    pd.DataFrame({"a": ["x", "y"], "b": [1, 2]}).groupby("a").sum().merge(pd.DataFrame({"a": ["x"]}), on="a", how="outer")
+    pd.get_dummies(pd.Series(["a", "b"]))
+
+
+def _expected_keys(cfg, so, env, passed=True):
+    base = f"{S3_ROOT}/{E.ELECTION_ID}"
+    exp = []
+    if env != "local" and "results" in so:
+        exp += [f"{base}/results/G/precinct/current.csv", f"{base}/results/G/precinct/current_counties.csv"]
+    if passed:
+        if "conformalization" in so and cfg["pi_method"] == "gaussian":
+            for e in cfg["estimands"]:
+                for level in [a for a in cfg["aggregates"] if a != "unit"]:
+                    for a in cfg["alphas"]:
+                        exp.append(f"{base}/gaussian/G/precinct/{e}-{level}-{a}/conformalization_data.csv")
+                        exp.append(f"{base}/gaussian/G/precinct/{e}-{level}-{a}/bounds.csv")
+        if env != "local" and "results" in so:
+            names = {"postal_code": "state_data", "county_fips": "county_data", "unit": "unit_data"}
+            for a in cfg["aggregates"]:
+                exp.append(f"{base}/predictions/G/precinct/{names[a]}/current.csv")
+    return exp
+
+
+def _sequence(case):
     from elexmodel.client import ModelClient
 
+    cov = Counter()
+    V = []
+    env = case["env"]["APP_ENV"]
+    units = E.background(case["seed"], "G", 16, "AA2") + [E.make_probe(case["seed"], 0, "nonrep_partial", "pop0")]
+    shared = {}
+    cwd0 = os.getcwd()
+    scratch = tempfile.mkdtemp(prefix="mc_c18_")
+    try:
+        os.chdir(scratch)
+        for step, (setup, so) in enumerate(zip(case["setups"], (case["first"], case["second"]))):
+            cfg = S.cfg_for(setup, "pc_cf", "drop", 100)
+            baseline, feed = E.frames(units, cfg)
+            kwargs = dict(features=list(cfg["features"]), aggregates=list(cfg["aggregates"]), fixed_effects={}, pi_method=cfg["pi_method"], save_output=list(so), handle_unreporting="drop")
+            if case["params"] == "shared_dict":
+                kwargs["model_parameters"] = shared
+            del fakes.S3_LOG[:]
+            ModelClient().get_estimates(feed, E.ELECTION_ID, "G", list(cfg["estimands"]), prediction_intervals=list(cfg["alphas"]), percent_reporting_threshold=100,
+                                        geographic_unit_type="precinct", raw_config=E.raw_config(cfg), preprocessed_data=baseline, **kwargs)
+            keys = sorted(re.sub(r"\s+", "", r["Key"] or "") for r in fakes.S3_LOG if r["op"] == "put_object")
+            exp = sorted(_expected_keys(cfg, so, env))
+            if keys != exp:
+                kind = "history-dependent-writes" if step == 1 else "remote-missing"
+                V.append({"sig": f"C18:{kind}", "msg": f"env={env} sequence {case['setups']} save_output {case['first']} then {case['second']} (model_parameters {case['params']}): run {step + 1} wrote extra={sorted(set(keys) - set(exp))} missing={sorted(set(exp) - set(keys))}"})
+                break
+            cov["sequence_runs"] += 1
+    finally:
+        os.chdir(cwd0)
+        shutil.rmtree(scratch, ignore_errors=True)
+        del fakes.S3_LOG[:]
+    cov["sequences"] += 1
+    return {"violations": V, "cov": dict(cov), "outcome": sha([v["sig"] for v in V]), "nontrivial": True, "transitions": 2}
+
+
+def evaluate(case):
+    """Every case runs in a child forked from the (never used, hence pristine) worker: persistence must not depend on what
+    an earlier case left behind in the process (module state, mutable defaults), and a history must start from the
+    initial process state."""
+    import pickle
+
+    r, w = os.pipe()
+    pid = os.fork()
+    if pid == 0:
+        code = 0
+        try:
+            os.close(r)
+            try:
+                res = _evaluate(case)
+            except BaseException as e:  # reported by the parent as a harness error
+                import traceback
+
+                res = {"harness_error": f"{type(e).__name__}: {e}", "traceback": traceback.format_exc(limit=10)}
+            with os.fdopen(w, "wb") as f:
+                f.write(pickle.dumps(res))
+        except BaseException:
+            code = 1
+        finally:
+            os._exit(code)
+    os.close(w)
+    with os.fdopen(r, "rb") as f:
+        data = f.read()
+    os.waitpid(pid, 0)
+    return pickle.loads(data)
+
+
+def _evaluate(case):
+    from elexmodel.client import ModelClient
+
+    if case.get("kind") == "sequence":
+        return _sequence(case)
     cov = Counter()
     V = []
     env = case["env"]["APP_ENV"]
@@ -164,4 +283,4 @@ def evaluate(case):
     return {"violations": V, "cov": dict(cov), "outcome": sha([norm, files, outcome])[:16], "nontrivial": bool(exp or exp_files)}
 
 
-REQUIRED_COUNTERS = {"expect_live_results": 50, "live_results_with_failing_gate": 20, "expect_conformalization": 10, "expect_local_files": 100, "expect_nothing": 20}
+REQUIRED_COUNTERS = {"expect_live_results": 50, "live_results_with_failing_gate": 20, "expect_conformalization": 10, "expect_local_files": 100, "expect_nothing": 20, "sequences": 100}
